@@ -11,6 +11,8 @@ mod sas_lang;
 mod tests;
 mod text;
 pub(crate) mod token_type;
+#[cfg(sas_lexer_verif)]
+pub mod verif;
 
 use bit_vec::BitVec;
 use buffer::{
@@ -105,6 +107,10 @@ struct Lexer<'src> {
     /// and the mode stack.
     #[cfg(debug_assertions)]
     last_state: (u32, Vec<LexerMode>),
+
+    /// Verification recorder (observer only)
+    #[cfg(sas_lexer_verif)]
+    verif: verif::Recorder,
 }
 
 /// Result of lexing
@@ -115,6 +121,10 @@ pub struct LexResult {
 
     #[cfg(any(feature = "opti_stats", test))]
     pub max_mode_stack_depth: usize,
+
+    /// What the verification hooks observed
+    #[cfg(sas_lexer_verif)]
+    pub verif: verif::VerifReport,
 }
 
 impl Lexer<'_> {
@@ -159,6 +169,8 @@ impl Lexer<'_> {
             checkpoint: None,
             macro_nesting_level,
             pending_stat_stack: BitVec::from_elem(1, false),
+            #[cfg(sas_lexer_verif)]
+            verif: verif::Recorder::default(),
         })
     }
 
@@ -185,6 +197,13 @@ impl Lexer<'_> {
     ///
     /// Make sure to always clear the checkpoint via `clear_checkpoint` if not rolling back
     fn checkpoint(&mut self) {
+        #[cfg(sas_lexer_verif)]
+        self.verif_op(if self.checkpoint.is_none() {
+            verif::CkptOp::Checkpoint
+        } else {
+            verif::CkptOp::CheckpointOverLive
+        });
+
         // We should always make sure to clear any checkpoints
         debug_assert!(self.checkpoint.is_none());
 
@@ -200,11 +219,25 @@ impl Lexer<'_> {
 
     /// Clear the checkpoint, without rolling back
     fn clear_checkpoint(&mut self) {
+        #[cfg(sas_lexer_verif)]
+        self.verif_op(if self.checkpoint.is_some() {
+            verif::CkptOp::Clear
+        } else {
+            verif::CkptOp::ClearNone
+        });
+
         self.checkpoint = None;
     }
 
     /// Rollback the lexer to the last checkpoint, clearing it in the process.
     fn rollback(&mut self) {
+        #[cfg(sas_lexer_verif)]
+        self.verif_op(if self.checkpoint.is_some() {
+            verif::CkptOp::Rollback
+        } else {
+            verif::CkptOp::RollbackMissing
+        });
+
         if let Some(checkpoint) = self.checkpoint.take() {
             self.cursor = checkpoint.cursor;
             self.cur_token_byte_offset = checkpoint.cur_token_byte_offset;
@@ -451,7 +484,16 @@ impl Lexer<'_> {
         let mut max_mode_stack_depth = 0usize;
 
         while let Some(next_char) = self.cursor.peek() {
+            #[cfg(sas_lexer_verif)]
+            self.verif_before(verif::Phase::Lex, None, Some(next_char));
+
             self.lex_token(next_char);
+
+            #[cfg(sas_lexer_verif)]
+            if self.verif_after() {
+                // iteration budget exceeded: stop lexing, result is flagged
+                break;
+            }
 
             #[cfg(any(feature = "opti_stats", test))]
             {
@@ -475,6 +517,8 @@ impl Lexer<'_> {
                             buffer: self.buffer.into_detached(self.source),
                             errors: self.errors,
                             max_mode_stack_depth,
+                            #[cfg(sas_lexer_verif)]
+                            verif: self.verif.report,
                         };
                     }
 
@@ -483,11 +527,18 @@ impl Lexer<'_> {
                         return LexResult {
                             buffer: self.buffer.into_detached(self.source),
                             errors: self.errors,
+                            #[cfg(sas_lexer_verif)]
+                            verif: self.verif.report,
                         };
                     }
                 };
                 self.last_state = new_state;
             }
+        }
+
+        #[cfg(sas_lexer_verif)]
+        {
+            self.verif.report.at_eof = self.verif_config();
         }
 
         self.finalize_lexing();
@@ -498,6 +549,8 @@ impl Lexer<'_> {
                 buffer: self.buffer.into_detached(self.source),
                 errors: self.errors,
                 max_mode_stack_depth,
+                #[cfg(sas_lexer_verif)]
+                verif: self.verif.report,
             }
         }
 
@@ -506,6 +559,8 @@ impl Lexer<'_> {
             LexResult {
                 buffer: self.buffer.into_detached(self.source),
                 errors: self.errors,
+                #[cfg(sas_lexer_verif)]
+                verif: self.verif.report,
             }
         }
     }
@@ -517,6 +572,9 @@ impl Lexer<'_> {
         while let Some(mode) = self.mode_stack.pop() {
             // Release the shared reference to the mode by cloning it
             // let mode = mode.clone();
+
+            #[cfg(sas_lexer_verif)]
+            self.verif_before(verif::Phase::Finalize, Some(&mode), None);
 
             self.start_token();
 
@@ -582,7 +640,13 @@ impl Lexer<'_> {
                     self.emit_error(ErrorKind::InvalidMacroDefName);
                 }
             }
+
+            #[cfg(sas_lexer_verif)]
+            self.verif_after();
         }
+
+        #[cfg(sas_lexer_verif)]
+        self.verif_before(verif::Phase::Eof, None, None);
 
         let last_line = self.buffer.last_line().unwrap_or_else(||
             // Should not be possible, since we add the first line when creating
@@ -598,6 +662,9 @@ impl Lexer<'_> {
             last_line,
             Payload::None,
         );
+
+        #[cfg(sas_lexer_verif)]
+        self.verif_after();
     }
 
     /// Main dispatcher of lexing mode to lexer function
@@ -5283,5 +5350,194 @@ impl Lexer<'_> {
 /// ```
 pub fn lex_program<S: AsRef<str>>(source: &S) -> Result<LexResult, ErrorKind> {
     let lexer = Lexer::new(source.as_ref(), None, None)?;
+    Ok(lexer.lex())
+}
+
+#[cfg(sas_lexer_verif)]
+impl Lexer<'_> {
+    fn verif_op(&mut self, op: verif::CkptOp) {
+        self.verif.ops.push(op);
+    }
+
+    #[allow(clippy::cast_possible_truncation)]
+    fn verif_config(&self) -> verif::ConfigView {
+        verif::ConfigView {
+            modes: self
+                .mode_stack
+                .iter()
+                .map(verif::ModeView::from_mode)
+                .collect(),
+            ckpt: self.checkpoint.as_ref().map(|c| {
+                let (nline, ntok, nlit) = c.buffer_checkpoint.verif_parts();
+                verif::CkptView {
+                    byte: self.source_len - c.cursor.remaining_len(),
+                    chr: c.cursor.char_offset(),
+                    tok_byte: c.cur_token_byte_offset.get(),
+                    mode_len: c.mode_stack_len as u32,
+                    ntok: ntok as u32,
+                    nline: nline as u32,
+                    nlit: nlit as u32,
+                }
+            }),
+            pend: self.pending_stat_stack.iter().collect(),
+            nest: self.macro_nesting_level,
+            last_tok: self.buffer.last_token_info().map(|t| t.token_type),
+        }
+    }
+
+    fn verif_before(
+        &mut self,
+        phase: verif::Phase,
+        popped: Option<&LexerMode>,
+        next_char: Option<char>,
+    ) {
+        let Some(opts) = self.verif.opts else {
+            return;
+        };
+
+        if self.verif.report.iters == 0 && self.verif.report.fin_iters == 0 {
+            self.verif.report.max_stack = self.verif.report.max_stack.max(
+                u32::try_from(self.mode_stack.len() + usize::from(popped.is_some()))
+                    .unwrap_or(u32::MAX),
+            );
+        }
+
+        if !opts.record {
+            return;
+        }
+
+        self.verif.phase = Some(phase);
+        self.verif.mode_before = popped
+            .or_else(|| self.mode_stack.last())
+            .map(verif::ModeView::from_mode);
+        self.verif.next_char = next_char;
+        self.verif.byte_before = self.cur_byte_offset().get();
+        self.verif.nline_before = self.buffer.line_count();
+        self.verif.nerr_before = u32::try_from(self.errors.len()).unwrap_or(u32::MAX);
+        self.verif.ops.clear();
+    }
+
+    /// Returns `true` when the iteration budget is exceeded
+    #[allow(clippy::cast_possible_truncation)]
+    fn verif_after(&mut self) -> bool {
+        let Some(opts) = self.verif.opts else {
+            return false;
+        };
+
+        let phase = self.verif.phase.unwrap_or(verif::Phase::Lex);
+
+        match phase {
+            verif::Phase::Lex => self.verif.report.iters += 1,
+            verif::Phase::Finalize => self.verif.report.fin_iters += 1,
+            verif::Phase::Eof => {}
+        }
+
+        self.verif.report.max_stack = self
+            .verif
+            .report
+            .max_stack
+            .max(self.mode_stack.len() as u32);
+
+        let over_budget = self.verif.report.iters > self.verif.budget;
+
+        if over_budget {
+            self.verif.report.budget_exceeded = true;
+        }
+
+        if !opts.record {
+            return over_budget;
+        }
+
+        // Diff the token buffer against the shadow copy
+        let toks = self.buffer.verif_tokens();
+        let old_len = self.verif.shadow.len();
+        let common = old_len.min(toks.len());
+        let from = common.saturating_sub(verif::SHADOW_WINDOW);
+        let mut first_changed = common;
+
+        for i in from..common {
+            if self.verif.shadow.get(i) != toks.get(i) {
+                first_changed = i;
+                break;
+            }
+        }
+
+        let toks_tail: Vec<verif::TokView> = toks
+            .get(first_changed..)
+            .unwrap_or(&[])
+            .iter()
+            .map(verif::TokView::from_info)
+            .collect();
+
+        self.verif.shadow.truncate(first_changed);
+        self.verif
+            .shadow
+            .extend_from_slice(toks.get(first_changed..).unwrap_or(&[]));
+
+        let lines = self.buffer.verif_lines();
+        let nline_after = lines.len() as u32;
+        let lines_from = self.verif.nline_before.min(nline_after) as usize;
+        let lines_tail = lines
+            .get(lines_from..)
+            .unwrap_or(&[])
+            .iter()
+            .map(|li| (li.verif_byte_offset(), li.start().get()))
+            .collect();
+
+        let nerr_before = self.verif.nerr_before;
+        let new_errors = self
+            .errors
+            .get(nerr_before as usize..)
+            .unwrap_or(&[])
+            .to_vec();
+
+        let event = verif::IterEvent {
+            seq: self.verif.report.events.len() as u32,
+            phase,
+            mode_before: self
+                .verif
+                .mode_before
+                .take()
+                .unwrap_or_else(|| verif::ModeView::from_mode(&LexerMode::Default)),
+            next_char: self.verif.next_char,
+            byte_before: self.verif.byte_before,
+            byte_after: self.cur_byte_offset().get(),
+            char_after: self.cur_char_offset().get(),
+            tok_byte_after: self.cur_token_byte_offset.get(),
+            config_after: self.verif_config(),
+            ops: std::mem::take(&mut self.verif.ops),
+            ntok_before: old_len as u32,
+            first_changed: first_changed as u32,
+            toks_tail,
+            nline_before: self.verif.nline_before,
+            nline_after,
+            lines_tail,
+            nerr_before,
+            new_errors,
+            nlit_after: self.buffer.verif_lit_len() as u32,
+        };
+
+        self.verif.report.events.push(event);
+
+        over_budget
+    }
+}
+
+/// Same as `lex_program`, with the verification recorder switched on.
+///
+/// # Errors
+/// If the source code is larger than 4GB, an error message is returned
+#[cfg(sas_lexer_verif)]
+pub fn lex_program_verif<S: AsRef<str>>(
+    source: &S,
+    opts: verif::VerifOptions,
+) -> Result<LexResult, ErrorKind> {
+    let mut lexer = Lexer::new(source.as_ref(), None, None)?;
+    lexer.verif.opts = Some(opts);
+    lexer.verif.budget = opts
+        .budget_mul
+        .saturating_mul(u64::from(lexer.source_len))
+        .saturating_add(opts.budget_add);
+    lexer.verif.report.at_start = lexer.verif_config();
     Ok(lexer.lex())
 }
